@@ -162,6 +162,8 @@ type Sim struct {
 	hidden         []string
 	w2             *w2state
 	w2m            *w2mon
+	onCleanRelease func(*RecvNode)
+	cleanPending   *cleanSnap
 
 	hookScanListing   func(*gkDeco, []*sts.Partial)
 	hookReceived      func(*gkDeco, *recvPartObs)
